@@ -302,6 +302,7 @@ def _run(case, res, R):
     if conf_destdir is not None:
         conf_destdir = _sub(conf_destdir, R)
         cenv['DESTDIR'] = conf_destdir
+    cenv['VF_ABSROOT'] = dirs['absroot']
     env = core.base_env(extra)      # make never sees DESTDIR in the environment
     args = []
     for k, v in cfg.items():
